@@ -64,6 +64,12 @@ func (eng *Engine) writeReplay(root, prop string, v *violation, frs []*FuncResul
 	rec["at"] = or.PosStr
 	rec["solver_output_head"] = firstLines(or.Output, 12)
 	if or.Status != "failed" || len(or.Model) == 0 {
+		// no model to replay: a history registered for this obligation (known_findings.json) is replayed instead
+		if eng.runWitness(root, dir, v, rec) {
+			rec["detail"] = "no solver produced a model (" + or.Status + "); the registered witness history was replayed"
+			writeJSON(v.replay, rec)
+			return
+		}
 		rec["outcome"] = "no-failing-input-found"
 		rec["detail"] = "no solver produced a model (" + or.Status + ")"
 		writeJSON(v.replay, rec)
